@@ -142,6 +142,17 @@ Bad(r) ==
                                                   ELSE {"lr", "nl", "plen", "grange"}) : CondHolds(r.scheme, c, ParamRec(r), r))
     [] r.op = "pubkeyVal" -> Scalar(PubkeyOk(r))
     [] r.op = "keypairVal" -> Scalar(KeypairOk(r))
+    \* crafted (p, q) with a claimed embedding degree k (0: no claim): 900 = the claim about the pair is wrong (generator),
+    \* 901 = no evidence decides the primality of q; else the offsets of the thresholds answered wrongly
+    [] r.op = "safeGroup" ->
+         LET p == N(r.p)  q == N(r.q)
+             known == Decidable(q) \/ Has(r, "cert") \/ Has(r, "fo") \/ Has(r, "sf")
+             qprime == IF Decidable(q) THEN IsPrimeMR(q)
+                       ELSE IF Has(r, "cert") THEN CertProves(r.cert, q) ELSE ~PrimeFails(q, r)
+         IN IF r.rc # 0 THEN {0}
+            ELSE IF ~known \/ (~Decidable(q) /\ ~Has(r, "cert") /\ ~PrimeFails(q, r)) THEN {901}
+            ELSE IF r.k > 0 /\ ~(qprime /\ OrderIs(p, q, r.k)) THEN {900}
+            ELSE BadOffsets(r.res, LAMBDA i : SafeGroup(p, q, qprime, r.thr[i + 1]))
     [] r.op = "onA" -> IF r.rc # 0 THEN {0}
                        ELSE LET E == [p |-> ToInt(N(r.p)), A |-> ToInt(N(r.A)), B |-> ToInt(N(r.B))]
                             IN BadOffsets(r.res, LAMBDA y : EI!IsOnCurve(E, r.x, y))
